@@ -76,7 +76,9 @@ EXTRA = {
         "close calls, yields and write/save calls (a local all of whose assignments are possibly conditional copies / path "
         "conversions of ONE parameter counts as that parameter); keyword arguments, literal arguments (file modes), the tests of "
         "conditional expressions, with-items rooted at a local that are neither an opener nor closing(...), and all "
-        "other statements are NOT in the table, and the entries of each function are sorted (their order carries no "
+        "other statements are NOT in the table (read as the same frame: nested with, a once-assigned local used in a "
+        "with-item, try/finally close, ExitStack.enter_context, an imported private helper, Path.write_bytes); any other "
+        "structural rewrite of the frames ends in no-failing-input-found by design - the fd oracle decides leaks; the entries of each function are sorted (their order carries no "
         "meaning: re-ordering exclusive branches or independent calls does not change the table); a module-private helper that only returns opener / nullcontext "
         "expressions is followed one level. What the table drops (e.g. which branch of `open(..) if .. else "
         "nullcontext(..)` is taken when) is tied to the code by the correspondence run only",
